@@ -21,15 +21,19 @@ def check(pid):
     return deco
 
 
-def mc_cfg(maxn, palette, invs=("AllHold", "FixedPoint")):
-    return (f"SPECIFICATION MSpec\nCONSTANTS RLimit = 99 BFLimit = 6 MaxN = {maxn}\n  Palette <- {palette}\n"
+def mc_cfg(maxn, palette, invs=("AllHold", "FixedPoint"), any_labelling=False):
+    return (f"SPECIFICATION MSpec\nCONSTANTS RLimit = 99 BFLimit = 6 MaxN = {maxn} AnyLabelling = {'TRUE' if any_labelling else 'FALSE'}\n  Palette <- {palette}\n"
             + "".join(f"INVARIANT {i}\n" for i in invs) + "CHECK_DEADLOCK FALSE\n")
 
 
-def design_pipeline(out, tier, palettes_quick=(("PaletteHDCO", 3),), palettes_thorough=(("PaletteHDCO", 3), ("PaletteHCO", 4), ("PaletteC13", 4), ("PaletteCl", 3))):
+def design_pipeline(out, tier, downstream=False, palettes_quick=(("PaletteHDCO", 3),), palettes_thorough=(("PaletteHDCO", 3), ("PaletteHCO", 4), ("PaletteC13", 4), ("PaletteCl", 3))):
     """bounded model of the whole pipeline; depth 11 = every action of the session fired"""
     for pal, n in (palettes_quick if tier == "quick" else palettes_thorough):
         out.design("MC_Tucan", mc_cfg(n, pal), expect_depth=11, label=f"MC_Tucan MaxN={n} {pal}", timeout=7200)
+    if downstream:
+        # whatever labelling bliss returns: every labelled graph the serializer can be handed
+        out.design("MC_Tucan", mc_cfg(3, "PaletteHC" if tier == "quick" else "PaletteHDCO", invs=("DownstreamHolds",), any_labelling=True), expect_depth=11,
+                   label="MC_Tucan downstream (any labelling) MaxN=3", timeout=7200)
 
 
 def validate_sessions(out, sessions, prefix, rl=14, bf=6, timeout=3600):
@@ -310,7 +314,7 @@ def c02(out, tier, rng):
 # ---------------------------------------------------------------------------------------------- C03
 @check("C03")
 def c03(out, tier, rng):
-    design_pipeline(out, tier)
+    design_pipeline(out, tier, downstream=True)
     ss = enumerated_sessions(out, tier, rng, parse_back=True)
     ss += pool_sessions(rng, tier, k=2, parse_back="all", feedback=True)
     ss += mutate_sessions(rng, tier, n=15)
@@ -432,7 +436,7 @@ def formula_stress(rng, tier, n=60):
 
 @check("C05")
 def c05(out, tier, rng):
-    design_pipeline(out, tier)
+    design_pipeline(out, tier, downstream=True)
     ss = enumerated_sessions(out, tier, rng, parse_back=False, quick_limit=80)
     pool = formula_stress(rng, tier) + drivers.special_molecules()
     ss += [pipeline_session(name, g, rng, k=1, parse_back=True) for name, g in pool]
